@@ -381,6 +381,146 @@ func runReuse(kind string) {
 	emit()
 }
 
+// more tubes opened than the acceptor's Accept queue holds before the application accepts anything
+func runQueueFull(seed uint64) {
+	a, b := hx.NewPair()
+	mo := tubes.Client(a, &tubes.Config{Log: quietLog()})
+	ma := tubes.Server(b, &tubes.Config{Log: quietLog()})
+	defer func() { go mo.Stop(); go ma.Stop() }()
+	r := hv.NewRand(seed)
+	nUnrel := 2 + r.Intn(6)
+	type ot struct {
+		rel    bool
+		id, ty byte
+		inited bool
+	}
+	var mu sync.Mutex
+	opened := map[string]*ot{}
+	key := func(rel bool, id byte) string { return fmt.Sprintf("%v/%d", rel, id) }
+	ok, sig, what := true, "", ""
+	fail := func(s, w string) {
+		mu.Lock()
+		if ok {
+			ok, sig, what = false, s, w
+		}
+		mu.Unlock()
+	}
+	mark := func(k string) {
+		mu.Lock()
+		opened[k].inited = true
+		mu.Unlock()
+	}
+	total := 0
+	for i := 0; i < 128+nUnrel; i++ {
+		rel := i < 128
+		ty := byte(1 + r.Intn(200))
+		if rel {
+			t, err := mo.CreateReliableTube(tubes.TubeType(ty))
+			if err != nil {
+				fail("C09:create-fails-with-free-ids", fmt.Sprintf("CreateReliableTube #%d failed: %v", i, err))
+				break
+			}
+			k := key(true, t.GetID())
+			mu.Lock()
+			opened[k] = &ot{rel: true, id: t.GetID(), ty: ty}
+			mu.Unlock()
+			go func() { t.WaitForInit(); mark(k); t.Write(tubeData(0, true, t.GetID(), ty, 64)) }()
+		} else {
+			t, err := mo.CreateUnreliableTube(tubes.TubeType(ty))
+			if err != nil {
+				fail("C09:create-fails-with-free-ids", fmt.Sprintf("CreateUnreliableTube #%d failed: %v", i, err))
+				break
+			}
+			k := key(false, t.GetID())
+			mu.Lock()
+			opened[k] = &ot{rel: false, id: t.GetID(), ty: ty}
+			mu.Unlock()
+			go func() {
+				msg := tubeData(0, false, t.GetID(), ty, 64)
+				if _, _, err := t.WriteMsgUDP(msg, nil, nil); err == nil { // returns once the tube is initiated
+					mark(k)
+					for j := 0; j < 40; j++ {
+						time.Sleep(50 * time.Millisecond)
+						t.WriteMsgUDP(msg, nil, nil)
+					}
+				}
+			}()
+		}
+		total++
+	}
+	// the application is slow: it starts accepting only when the queue is full and the surplus requests have been
+	// repeated a few times (stimulus only; nothing is judged by this timing)
+	for i := 0; i < 4000; i++ {
+		if _, _, q := tubes.VerifMuxSnapshot(ma); q >= 128 {
+			break
+		}
+		time.Sleep(time.Millisecond)
+	}
+	time.Sleep(900 * time.Millisecond)
+	offered := map[string]int{}
+	deadline := time.Now().Add(time.Duration(hv.Scale(40, 90)) * time.Second)
+	got := 0
+	for got < total && time.Now().Before(deadline) {
+		t, okA := tubes.VerifMuxTryAccept(ma)
+		if !okA {
+			time.Sleep(2 * time.Millisecond)
+			continue
+		}
+		got++
+		k := key(t.IsReliable(), t.GetID())
+		offered[k]++
+		mu.Lock()
+		o := opened[k]
+		mu.Unlock()
+		if o == nil {
+			fail("C09:tube-offered-twice-or-unrequested", fmt.Sprintf("Accept returned tube %s that the peer never opened", k))
+			continue
+		}
+		if offered[k] > 1 {
+			fail("C09:tube-offered-twice-or-unrequested", fmt.Sprintf("tube %s was offered %d times", k, offered[k]))
+		}
+		if byte(t.Type()) != o.ty {
+			fail("C09:accepted-tube-differs-from-request", fmt.Sprintf("tube %s accepted with type %d, opened with type %d", k, t.Type(), o.ty))
+		}
+		want := tubeData(0, o.rel, o.id, o.ty, 64)
+		go func(t tubes.Tube) {
+			var data []byte
+			if t.IsReliable() {
+				data = readStream(t, len(want), deadline)
+			} else {
+				buf := make([]byte, 4096)
+				u := t.(*tubes.Unreliable)
+				for time.Now().Before(deadline) {
+					u.SetReadDeadline(time.Now().Add(500 * time.Millisecond))
+					n, _, _, _, err := u.ReadMsgUDP(buf, nil)
+					if err == nil {
+						data = buf[:n]
+						break
+					}
+				}
+			}
+			if len(data) > 0 && !bytes.Equal(data, want) {
+				fail("C09:tube-reader-got-foreign-or-wrong-bytes", fmt.Sprintf("acceptor of %s read % x, its opener wrote % x", k, trunc(data), trunc(want)))
+			}
+		}(t)
+	}
+	time.Sleep(200 * time.Millisecond)
+	mu.Lock()
+	var missing []string
+	for k, o := range opened {
+		if o.inited && offered[k] == 0 {
+			missing = append(missing, k)
+		}
+	}
+	sort.Strings(missing)
+	mu.Unlock()
+	if len(missing) > 0 {
+		fail("C09:remote-tube-not-offered", fmt.Sprintf("the opener holds %d initiated tubes, the acceptor was offered %d; open at the opener but never offered: %v", total, got, missing))
+	}
+	safeEmit(hv.Case{Class: "net-accept-queue-full", Desc: fmt.Sprintf("net accept-queue-full seed=%d: the client opens 128 reliable + %d unreliable tubes before the server's application accepts anything, then everything is accepted", seed, nUnrel),
+		Spec: ok, Sig: sig, What: what, NT: true})
+}
+
 func genNet(r *hv.Rand) {
 	dupReorder := func(rr *hv.Rand) hx.Policy {
 		var mu sync.Mutex
@@ -405,6 +545,11 @@ func genNet(r *hv.Rand) {
 		}
 		wg.Add(1)
 		go func() { defer wg.Done(); runConcurrent(seed, n, pol) }()
+	}
+	for i := 0; i < hv.Scale(1, 3); i++ {
+		seed := r.U64() % 100000
+		wg.Add(1)
+		go func() { defer wg.Done(); runQueueFull(seed) }()
 	}
 	wg.Add(2)
 	go func() { defer wg.Done(); runReuse("data") }()
